@@ -325,3 +325,8 @@ def check(cx):
     cx.include(c07, {"C07.4"}, "C16.9", "shared with C07.4: what a failed statement leaves in a unique index is hidden by the snapshot-aware decoder "
                "only; a probe that also consults raw tombstone predicates treats the residue of an aborted writer as a live claim, so "
                "after the error the database no longer behaves as it did before the failing statement", floor=1)
+
+    # ---- C16.10 (construct shared with C01.6) --------------------------------------------------------------------------
+    from . import c01
+    cx.include(c01, {"C01.6"}, "C16.10", "shared with C01.6: the log append (the step that can reject an oversized record) comes before the B-tree write; "
+               "a statement that fails at the append after writing the row leaves that row behind in the session", floor=3)
